@@ -53,6 +53,10 @@ CHECKS = {
             "gc is called on store states produced by real seeded histories (files, directory objects, shared files, leftovers of failed adds, evicted objects) with used sets drawn from ids in the store, absent ids, ids carrying another algorithm's name, directory ids; shallow and expanding (optionally through a separate cache_odb), dry and real, read-only stores. Oracle: returned count == |S - U|, store afterwards lists exactly S & U (S when dry), read-only store refused and untouched, with S from the store's own listing before the call and U computed independently from the model.",
             "No schedule or fault dimension exists in gc itself; the simulation contributes history-produced store states and the model comparison.",
             "deterministic simulation: seeded histories producing store states, gc vs set-difference model", "DESIGN.md §5 C06"),
+    "C09": ("exploration",
+            "Seeded (prior workspace, target index) pairs over one small name pool so that file<->directory replacements occur at every depth; target as explicit entries (with the explicit parent-directory entries DVC always adds) and/or an unloaded directory object under a prefix, exec bits, link type, delete on/off, evicted file objects or evicted directory object; old side built as DVC does (build + md5). After compare+apply on the real tmpfs workspace: workspace files == target files byte for byte, target directories exist, explicit exec entries executable, a second compare has nothing to create or delete, with delete off every prior path outside the target survives, every unavailable target path is reported through apply's onerror (for itself or its directory).",
+            "Indexes without explicit parent-directory entries are outside the property's well-formed targets (DVC always adds them). With delete off, convergence is only required when no path changes kind.",
+            "deterministic simulation: seeded workspace-state x target pairs, apply vs reference model with second-compare fixpoint check", "DESIGN.md §5 C09"),
 }
 
 NA_FIXED = {
